@@ -237,7 +237,28 @@ def run(ctx):
                             meta={'kind': 'empty-book:' + ' '.join(path), 'setting': 'noDatabase', 'flag': False, 'env': False, 'cfg': 'absent', 'where': 'none', 'winner': '-', 'expect': None})
                 cases += [a, b]
                 pairs.append((a, b))
+    # a depth limit of 1 from the configuration file is a limit like any other (not "unset")
+    for variant in (0, 1):
+        files = {b'food.yaml': chain(variant), b'log.yaml': b''}
+        cases.append(AppCase(['csv', 'database-resolved'], (), g={'noColor': True, 'config': 'my.cfg'}, cfg={'where': 'flag', 'path': 'my.cfg', 'exists': True, 'entries': {'MaxDepth': 1}},
+                             files=files, disk=True,
+                             meta={'kind': 'load:maxdepth (configuration file says 1)', 'setting': 'maxdepth', 'flag': False, 'env': False, 'cfg': 'set', 'where': 'flag', 'winner': 'cfg',
+                                   'variant': 'one%d' % variant, 'expect': ('status', 'ok') if variant == 0 else ('class', 'depth')}))
     impl, model = run_apps(ctx, cases)
+    # the real binary: a named configuration file that exists but cannot be read is an error; no $HOME / $USER is not a crash
+    from .. import core
+    binary = ctx.real()
+    logf = {b'food.yaml': b'', b'log.yaml': b'2021/01/24:\n  a: 1\n', b'secret.cfg': b'[Global]\nDateFormat=2006-01-02\n'}
+    rc, out, err = core.run_real_binary(binary, ['--today', '2021/01/28', '-c', 'secret.cfg', 'csv', 'log'], logf, modes={'secret.cfg': 0})
+    ctx.evaluations += 1
+    if core.SCRATCH_UID and rc == 0:
+        ctx.problem('oracle', 'a configuration file named with --config exists but cannot be read, and the command succeeds as if it were not there', None,
+                    {'stdout': out.decode('utf-8', 'replace')[:300]}, signature='unreadable-config-ignored')
+    rc, out, err = core.run_real_binary(binary, ['--today', '2021/01/28', 'csv', 'log'], logf, drop_env=('HOME', 'USER'))
+    ctx.evaluations += 1
+    if rc not in (0, 1) or b'panic' in err or b'fatal error' in err:
+        ctx.problem('oracle', 'without $HOME and $USER (no default configuration location) the program crashes', None,
+                    {'rc': rc, 'stderr': err.decode('utf-8', 'replace')[:400]}, signature='no-home-crash')
     for c in cases:
         i = impl[c.id]
         exp = c.meta['expect']
